@@ -3,52 +3,58 @@ Require Import Base.Bytes Model.Frame Model.Split Lib.Bufio Spec.StreamSpec Proo
 Open Scope nat_scope.
 
 Definition state_ok (s : scanner) (r : reader) : Prop :=
-  serr s = None \/ (serr s = Some (final r) /\ rest r = [] /\ length (pend s) < maxtok).
+  (serr s = None /\ conv_ok s r) \/ (serr s = Some (final r) /\ rest r = [] /\ drain_ok s).
 
 Definition bound (s : scanner) (r : reader) := length (pend s) + 2 * length (rest r) + length (sched r).
 
-Theorem run_ok fuel : forall s r acc, G s -> err_with_data r = false -> sched_pos (sched r) -> state_ok s r ->
+Theorem run_ok fuel : forall s r acc, G s -> sched_ok (sched r) -> state_ok s r ->
   bound s r + 3 <= fuel ->
   run fuel s r acc = Some (rev acc ++ fst (segT (pend s ++ rest r)), tterm (snd (segT (pend s ++ rest r))) (final r)).
 Proof.
-  induction fuel as [|f IH]; intros s r acc HG Hewd Hpos Hst Hb; [lia|].
-  cbn [run]. destruct Hst as [He|(He & Hrest & Hlt)].
+  induction fuel as [|f IH]; intros s r acc HG Hok Hst Hb; [lia|].
+  cbn [run]. destruct Hst as [(He & Hconv)|(He & Hrest & Hdr)].
   - (* no error yet *)
-    pose proof (scan_ok (S f) s r HG He Hewd Hpos ltac:(unfold bound, mu in *; lia)) as H.
+    pose proof (scan_ok (S f) s r) as H.
+    specialize (H ltac:(unfold scan_pre; ssplit; try assumption; unfold bound, mu in *; lia)).
     destruct (scan (S f) s r) as [[|] s' r'|]; cbn [scan_post] in H; [| |contradiction].
-    + destruct H as (t & ts & z & Ht & Hseg & Hseg' & HG' & Hfin & Hewd' & Hpos' & Hmu & Hlen & Hst').
+    + destruct H as (t & ts & z & Ht & Hseg & Hseg' & HG' & Hfin & Hewd' & Hok' & Hmu & Hlen & Hst').
       rewrite Ht. rewrite IH; try assumption.
       * rewrite Hseg, Hseg', Hfin. cbn [fst snd rev]. rewrite <- app_assoc. reflexivity.
-      * destruct Hst' as [H1|(H1 & H2 & H3)]; [left; exact H1|right]. rewrite Hfin. repeat split; assumption.
+      * destruct Hst' as [H1|(H1 & H2 & H3)].
+        -- left. split; [exact H1|]. unfold conv_ok in *. rewrite Hewd', Hseg'. cbn [snd].
+           destruct Hconv as [Hc|Hc]; [left; exact Hc|right]. rewrite Hseg in Hc. exact Hc.
+        -- right. rewrite Hfin. ssplit; assumption.
       * unfold bound, mu in *. lia.
     + destruct H as (z & Hseg & Herr). rewrite Hseg, Herr. cbn [fst snd]. rewrite app_nil_r. reflexivity.
   - (* error already recorded: drain the buffer *)
-    pose proof (scan_err_state f s r (final r) He Hlt) as H.
+    pose proof (scan_err_state f s r (final r) He HG Hdr) as H.
     destruct (scan (S f) s r) as [[|] s' r'|]; [| |contradiction].
     + destruct H as (-> & t & ts & z & Ht & Hseg & Hseg' & Hes & Hlen & HGG).
       rewrite Ht. rewrite IH; try assumption.
       * rewrite Hrest, !app_nil_r. rewrite Hseg, Hseg'. cbn [fst snd rev]. rewrite <- app_assoc. reflexivity.
-      * apply HGG; exact HG.
-      * right. repeat split; try assumption. lia.
+      * right. ssplit; try assumption.
+        destruct Hdr as [Hd|Hd]; [left; lia|right]. rewrite Hseg'. rewrite Hseg in Hd. exact Hd.
       * unfold bound in *. lia.
     + destruct H as (Hseg & Herr). rewrite Hrest, app_nil_r, Hseg, Herr. cbn [fst snd tterm]. rewrite app_nil_r. reflexivity.
 Qed.
 
-(* The headline statement: for every stream and every schedule of positive chunk sizes, with the port's
-   terminal error delivered by a separate read, the scanner delivers exactly the reference segmentation. *)
-Theorem scan_fragmentation_independent stream sch fin :
-  sched_pos sch ->
-  run (2 * length stream + length sch + 3) init_scanner (mk stream sch fin false) []
+(* The headline statement.  For every stream, every schedule of read sizes (0 included, at most 100 empty
+   reads in a row), every terminal error, and either convention for delivering it (with the last data, or by
+   a read of its own - the former provided the reference segmentation does not end in TooLong), the scanner
+   delivers exactly the reference segmentation of the stream followed by the terminal error. *)
+Theorem scan_fragmentation_independent stream sch fin ewd :
+  sched_ok sch -> (ewd = false \/ snd (segT stream) = SEnd) ->
+  run (2 * length stream + length sch + 3) init_scanner (mk stream sch fin ewd) []
   = Some (fst (segT stream), tterm (snd (segT stream)) fin).
 Proof.
-  intros Hpos. rewrite run_ok; try assumption; try reflexivity.
+  intros Hok Hc. rewrite run_ok; try assumption; try reflexivity.
   all: try (unfold G, sc_end, init_scanner, max_token; cbn; lia).
-  all: try (left; reflexivity).
+  all: try (left; split; [reflexivity|exact Hc]).
   all: try (unfold bound; cbn; lia).
 Qed.
 
-Corollary two_schedules_agree stream sch1 sch2 fin : sched_pos sch1 -> sched_pos sch2 ->
-  run (2 * length stream + length sch1 + 3) init_scanner (mk stream sch1 fin false) []
-  = run (2 * length stream + length sch2 + 3) init_scanner (mk stream sch2 fin false) [].
-Proof. intros H1 H2. rewrite !scan_fragmentation_independent by assumption. reflexivity. Qed.
-
+Corollary two_schedules_agree stream sch1 sch2 fin ewd1 ewd2 : sched_ok sch1 -> sched_ok sch2 ->
+  (ewd1 = false \/ snd (segT stream) = SEnd) -> (ewd2 = false \/ snd (segT stream) = SEnd) ->
+  run (2 * length stream + length sch1 + 3) init_scanner (mk stream sch1 fin ewd1) []
+  = run (2 * length stream + length sch2 + 3) init_scanner (mk stream sch2 fin ewd2) [].
+Proof. intros H1 H2 C1 C2. rewrite !scan_fragmentation_independent by assumption. reflexivity. Qed.
